@@ -236,8 +236,8 @@ PROPS = {
     "C18": dict(
         lean_props="Receptor.Props.C18",
         engines=[dict(engine="ads", pkg=NETC, test="TestVerifAds", n_quick=400, n_thorough=4000)],
-        corr_ops={"ads": ["run"]},
-        facts=["ads_keep_test", "ads_tombstone_test", "ads_tombstones", "ads_relay"],
+        corr_ops={"ads": ["run", "owner"]},
+        facts=["ads_keep_test", "ads_tombstone_test", "ads_tombstones", "ads_relay", "ads_stamp"],
         trusted=["advertisement times are generator-chosen logical times injected into the messages (no wall clock)",
                  "network-level convergence is proved as order-independence per node (tombstone variant); the periodic re-advertisement "
                  "that heals lost messages is exercised by the mesh engine, not modelled"],
